@@ -153,8 +153,10 @@ let mk_oracles (orc_tok : string) (env_tok : string) (prop_tok : string) =
   let orcq (s : n list) : q option = match look "F" s with Some r -> Some (q_of_string r) | None -> None in
   let env (name : n list) : n list option =
     match Hashtbl.find_opt e (string_of_str name) with Some h -> Some (str_of_hex h) | None -> None in
-  let prop (file : n list) (key : n list) : n list option =
-    match Hashtbl.find_opt p (string_of_str file ^ "#" ^ string_of_str key) with Some h -> Some (str_of_hex h) | None -> None in
+  (* the property files of the case, verbatim; the model reads them itself *)
+  let files (file : n list) : n list option =
+    match Hashtbl.find_opt p (string_of_str file) with Some h -> Some (str_of_hex h) | None -> None in
+  let prop = prop_of_files files in
   (env, prop, orc, orcq)
 
 let no_env (_ : n list) : n list option = None
@@ -288,9 +290,11 @@ let predict (c : string) (obs : string) : string * string * bool =
         | "rng" ->
             (match schema_at gen_registry false false path schema dflt tree, value_at path tree with
              | Some ((s', tags), d'), Some x ->
+                 (* constraints enforced by constructors count where the constructor runs: a component decoded in
+                    its slot of a whole configuration (comp cases fill the bare config struct) *)
                  let violates =
                    (match decode env prop orc orcq gen_registry model_factory_lazy (nat_of_int 3) s' d' x with
-                    | Ok c' -> not (check_field orc s' c' tags)
+                    | Ok c' -> not (check_field orc s' c' tags) || (kind <> "comp" && not (ctor_field_ok tags c'))
                     | _ -> true) in
                  if not violates then ("ok", false)
                  else if obs = "err" then ("ok", true) else ("BAD:out-of-range-value-accepted", true)
